@@ -24,6 +24,12 @@ func splitCount(props M, n int) int {
 }
 
 // refImportance: the method's documented importance of every criterion of state s.
+// exactImportance: the documented importance is a number of the request itself (a weight or k), not the result of
+// floating-point arithmetic, so two importances are compared exactly however close they are.
+func exactImportance(method string) bool {
+	return method == "majorityHeuristic" || method == "aspectEliminationHeuristic" || method == "electreIII"
+}
+
 func refImportance(v *ReqView, s *Snap) (map[string]float64, bool) {
 	imp := map[string]float64{}
 	sumVals := func(id string) float64 {
@@ -247,6 +253,9 @@ func judgeC15(c ReqCase) *Fail {
 			scale = math.Max(scale, math.Abs(x))
 		}
 		tol := 1e-9 * scale
+		if exactImportance(v.Method) {
+			tol = 0
+		}
 		var first float64
 		for i, id := range sortedKeys(imp) {
 			if i == 0 {
@@ -288,7 +297,7 @@ func judgeC15(c ReqCase) *Fail {
 			st.inc("C15:full-order-checked")
 			for i := 1; i < len(seq); i++ {
 				a, b := imp[seq[i-1]], imp[seq[i]]
-				if math.Abs(a-b) <= 1e-9*scale {
+				if !exactImportance(v.Method) && math.Abs(a-b) <= 1e-9*scale {
 					continue
 				}
 				if (ordering == "weakest" && a > b) || (ordering == "strongest" && a < b) {
